@@ -101,6 +101,20 @@ def pcg32_ref(seed, seq, n):
     return out
 
 
+# scalar linear_to_srgb of the implementation, per build, cached (filled in one batch by run(); single queries otherwise)
+SRGB_CACHE = {}
+
+
+def scalar_srgb(bits_list, build, exe_query):
+    cache = SRGB_CACHE.setdefault(build, {})
+    miss = [b for b in bits_list if b not in cache]
+    if miss and exe_query is not None:
+        rc, so, se = exe_query("\n".join("14 %d" % b for b in miss) + "\n")
+        for b, v in zip(miss, so.split()):
+            cache[b] = int(v)
+    return [cache.get(b, -1) for b in bits_list]
+
+
 # ------------------------------------------------------------------ property oracle on the implementation's output
 def oracle(case, out, build, exe_query=None):
     """returns (ok, required) for one case line and the implementation's output line"""
@@ -170,12 +184,21 @@ def oracle(case, out, build, exe_query=None):
                 return True, "(NaN channel)"
             if fn == 10:
                 ch = [py_cvt(fb(b)) for b in a]
-            else:   # srgba8: channel k = cvt(linear_to_srgb(comp k)) by the implementation's own functions
-                rc, so, se = exe_query("\n".join(["14 %d" % b for b in a[:3]]) + "\n")
-                sr = [int(x) for x in so.split()]
+            else:   # srgba8: byte k = cvt(scalar linear_to_srgb applied to component k ALONE), alpha = cvt(max(w,0))
+                sr = scalar_srgb(a[:3], build, exe_query)
                 ch = [py_cvt(fb(b)) for b in sr] + [py_cvt(py_max(fb(a[3]), 0.0))]
         got = [(o >> (8 * k)) & 255 for k in range(4)]
         return got == ch and 0 <= o < (1 << 32), "channel k of the packed word = %r (per channel, <<0,8,16,24)" % ch
+    if fn == 28:        # linear_to_srgba(vec4f): channel k = the scalar path on component k alone; alpha linear
+        if any(isnan_b(b) for b in a):
+            return True, "(NaN channel)"
+        try:
+            got = [int(x) for x in out.split()]
+        except ValueError:
+            return False, "four floats"
+        exp = scalar_srgb(a[:3], build, exe_query) + [bf(py_max(fb(a[3]), 0.0))]
+        return got == exp, ("(linear_to_srgb(r), linear_to_srgb(g), linear_to_srgb(b), max(a,0)) each from its own component = %s"
+                            % ["0x%08X" % x for x in exp])
     if fn in (11, 12, 17, 18):
         # range clause, stated as the theorems pcg_float_range / uniform_real_range do:
         #   lower <= value <= rn(rn(upper - lower) + lower)      (rn = round to nearest even in binary32)
@@ -331,10 +354,39 @@ def gen_dist_cases(r, scale):
         if not (lo <= hi):
             continue
         for fn in (17, 18):
-            sel = [2 ** 32 - 1, r.choice(ks), r.getrandbits(32)] + ([0, 2 ** 31] if r.random() < 0.15 * scale else [])
+            sel = [2 ** 32 - 1, r.choice(ks + [r.getrandbits(32)])] + ([0, 2 ** 31] if r.random() < 0.1 * scale else [])
             for k in sel:
                 cs.append("%d %d %d %d" % (fn, bf(lo), bf(hi), k))
     return cs
+
+
+def next_up(b):
+    return b + 1 if not (b & 0x80000000) else b - 1
+
+
+GRID_VALUES = [0.0, 2.0 ** -10, 0.0031308, 0.04045, 0.18, 0.5, 1.0, 1.0 + 2.0 ** -23, 2.0, -1.0]
+
+
+def gen_pack_grid():
+    """CROSS-PRODUCT grid for the packing functions: every 4-tuple over 10 values (10^4 tuples), so that the same value
+    repeats across channels in every pattern (r==g==a with another blue, r==b, all equal, ...); plus, over the 14-value
+    set that adds the floats just below/above the sRGB breakpoints 0.0031308 and 0.04045, every tuple with at most two
+    distinct values.  Returns (tuples10, tuples14)."""
+    import itertools
+    v10 = [bf(f32(v)) for v in GRID_VALUES]
+    t10 = list(itertools.product(v10, repeat=4))
+    extra = []
+    for v in (0.0031308, 0.04045):
+        b = bf(f32(v))
+        extra += [b - 1, b + 1]
+    v14 = v10 + extra
+    t14 = set()
+    for x in v14:
+        for y in v14:
+            for mask in range(16):
+                t14.add(tuple(x if (mask >> k) & 1 else y for k in range(4)))
+    t14 = sorted(t14 - set(t10))
+    return t10, t14
 
 
 def gen_oracle_only_cases(r, scale):
@@ -342,6 +394,10 @@ def gen_oracle_only_cases(r, scale):
     for _ in range(60 * scale):
         cs.append("15 %d %d %d %d" % tuple(r.choice([rfinite(r), bf(f32(r.random())), bf(f32(r.random()))]) for _ in range(4)))
     cs += ["14 %d" % b for b in (0, 0x80000000, 0x3F800000, 0x3F000000, 1, FMAX_BITS, 0xBF800000)]
+    t10, t14 = gen_pack_grid()
+    for t in t10 + t14:
+        cs.append("15 %d %d %d %d" % t)        # linear_to_srgba8
+        cs.append("28 %d %d %d %d" % t)        # linear_to_srgba
     return cs
 
 
@@ -392,7 +448,7 @@ def nontrivial(case, out):
         return str(a[0]) != out.split()[0] or a[0] in (a[1], a[2])
     if fn in (6, 7):
         return (a[0] & 0x7FFFFF) != 0 and (a[1] & 0x7FFFFF) != 0
-    if fn in (10, 15, 26):
+    if fn in (10, 15, 26, 28):
         return len(set(a)) > 1
     if fn in (11, 12):
         return not (a[2] == 0 and a[3] == 0x3F800000)
@@ -404,6 +460,52 @@ def nontrivial(case, out):
     if fn == 25:
         return a[0] < 0 or a[1] < 0 or a[0] > 1000
     return fn == 13
+
+
+def grid_check(ctx, cases, outs):
+    """relational clauses on the packing grid, per function (10: cvt_uint32(vec4f), 15: linear_to_srgba8) and channel k:
+    byte k is a FUNCTION of component k alone (independence), nondecreasing in it (monotone), 0 for v <= 0 and 255 for
+    v >= 1 (saturating).  Reports the first offending tuple(s)."""
+    for lab in outs:
+        for fn in (10, 15):
+            seen = {}        # (k, bits of component k) -> (byte, tuple)
+            done = False
+            for c, il in zip(cases, outs[lab]):
+                t = c.split()
+                if int(t[0]) != fn or done:
+                    continue
+                a = [int(x) for x in t[1:]]
+                if any(isnan_b(b) for b in a) or not il.split()[0].isdigit():
+                    continue
+                o = int(il.split()[0])
+                for k in range(4):
+                    byte = (o >> (8 * k)) & 255
+                    v = fb(a[k])
+                    key = (k, a[k])
+                    bad = None
+                    if key in seen and seen[key][0] != byte:
+                        bad = ("byte %d depends on other channels: component value %r gives %d in tuple %s but %d in tuple %s"
+                               % (k, v, seen[key][0], [repr(fb(x)) for x in seen[key][1]], byte, [repr(fb(x)) for x in a]))
+                    elif (v <= 0 and byte != 0) or (v >= 1 and byte != 255):
+                        bad = "byte %d not saturating: component %r gives %d in tuple %s" % (k, v, byte, [repr(fb(x)) for x in a])
+                    seen.setdefault(key, (byte, a))
+                    if bad:
+                        ctx.violation("%s build: fn %d (%s) on the cross-product grid: %s" % (
+                            lab, fn, "cvt_uint32(vec4f)" if fn == 10 else "linear_to_srgba8", bad),
+                            {"build": lab, "case": c, "tuple": [repr(fb(x)) for x in a], "tuple_hex": ["0x%08X" % x for x in a],
+                             "observed": "0x%08X" % o, "required": "byte k of the packed word depends only on component k, "
+                             "is monotone in it and saturates (srgba8_per_channel_thm / srgba8_channel_independent_thm)"})
+                        done = True
+                        break
+            if not done:     # monotone in the component, per channel
+                for k in range(4):
+                    pts = sorted((fb(b), by) for (kk, b), (by, _) in seen.items() if kk == k)
+                    for (v1, b1), (v2, b2) in zip(pts, pts[1:]):
+                        if b2 < b1:
+                            ctx.violation("%s build: fn %d byte %d not monotone: %r -> %d but %r -> %d" % (lab, fn, k, v1, b1, v2, b2),
+                                          {"build": lab, "channel": k, "values": [repr(v1), repr(v2)], "bytes": [b1, b2],
+                                           "required": "monotone per channel"})
+                            break
 
 
 # ------------------------------------------------------------------ Coq evaluation of the binary32 model
@@ -588,6 +690,19 @@ def regenerate(ctx):
 
 
 # ------------------------------------------------------------------ main
+def make_float_cases(ctx):
+    r = ctx.rng("float")
+    scale = ctx.pick(1, 5)
+    t10, t14 = gen_pack_grid()
+    step = ctx.pick(7, 2)
+    twin10 = t14 + t10[::step]                       # cvt_uint32(vec4f) on the grid: twin-compared subset ...
+    rest10 = [t for i, t in enumerate(t10) if i % step]
+    fcases = (gen_float_cases(r, scale) + gen_dist_cases(r, scale) + color_boundary_inputs()
+              + ["10 %d %d %d %d" % t for t in twin10])
+    ocases = gen_oracle_only_cases(r, scale) + ["10 %d %d %d %d" % t for t in rest10]     # ... the rest oracle-only
+    return fcases, ocases
+
+
 def build_and_sweep(ctx):
     """C++ builds and the two exhaustive sweeps; runs in a worker thread while the (single-threaded) Coq build proceeds."""
     common = dict(flags=CXXFLAGS)
@@ -602,6 +717,12 @@ def build_and_sweep(ctx):
         stride = ctx.pick(64, 4)
         for label, exe in (("SIMD", exes[0]), ("NO_SIMD", exes[1])):
             sweeps[label] = ctx.run_exe(exe, ["16", str(stride)], timeout=900)
+        # the case harness runs too (they only need the executables)
+        fcases, ocases = make_float_cases(ctx)
+        runs = {}
+        for lab, exe in (("SIMD", exes[2]), ("NO_SIMD", exes[3])):
+            runs[lab] = vlib.run_lines(ctx, exe, [], fcases + ocases)
+        sweeps["cases"] = (fcases, ocases, runs)
     return exes, sweeps
 
 
@@ -617,8 +738,23 @@ def run(ctx):
         src = open(os.path.join(ctx.coqdir, "ProofsGen.v")).read().split("\n")
         name = next((re.match(r"\s*Lemma (\w+)", src[i]).group(1) for i in range(min(ln, len(src)) - 1, -1, -1)
                      if re.match(r"\s*Lemma (\w+)", src[i])), "?")
-        ctx.cov["gen_obligation_broken"] = {"lemma": name, "line": ln}
+        # which regenerated definitions does that lemma speak about, and do they now branch on a guard?
+        lstart = next(i for i in range(min(ln, len(src)) - 1, -1, -1) if re.match(r"\s*Lemma (\w+)", src[i]))
+        stmt = "\n".join(src[lstart:ln])
+        gtxt = ""
+        for gfile in ("GenMath.v", "SimdFacts.v", "DistFacts.v"):
+            gp = os.path.join(ctx.coqdir, "gen", gfile)
+            gtxt += open(gp).read() if os.path.exists(gp) else ""
+        details = []
+        for dname, body in re.findall(r"^Definition (\S+)[^\n]*:=\n(.*?)\.\n\n", gtxt + "\n", re.M | re.S):
+            if re.search(r"\b%s\b" % re.escape(dname), stmt):
+                guards = [g.strip() for g in re.findall(r"\(if (.*?)\n?\s*then", body, re.S)]
+                details.append({"definition": dname, "guards": guards, "text": body.strip()[:600]})
+        ctx.cov["gen_obligation_broken"] = {"lemma": name, "line": ln, "regenerated": details}
         ctx.log("Tie A: regenerated definition no longer equals the model: ProofsGen.%s (line %d) fails" % (name, ln))
+        for d in details:
+            if d["guards"]:
+                ctx.log("  regenerated %s branches on guard(s): %s" % (d["definition"], " ; ".join(d["guards"])[:400]))
         ctx.broken.insert(0, "Tie A obligation ProofsGen.%s: the definition regenerated from the working tree is not the model's" % name)
     model = ctx.extract(snippets=["conv_N.ml", "conv_Z.ml", "conv_nat.ml"])
     exes, sweeps = fut.result()
@@ -654,14 +790,12 @@ def run(ctx):
             "assumed bound": 3.0 / 8192, "huge-argument hypothesis violations": s["est_rcp_big"]["viol"]}
 
     # ---- leg 2: binary32 Coq model (vm_compute) vs both builds
-    r = ctx.rng("float")
     scale = ctx.pick(1, 5)
-    fcases = gen_float_cases(r, scale) + gen_dist_cases(r, scale) + color_boundary_inputs()
-    ocases = gen_oracle_only_cases(r, scale)
+    fcases, ocases, runs = sweeps["cases"]
     mvals = coq_eval(ctx, fcases)
     outs = {}
     for lab, exe in (("SIMD", h_simd), ("NO_SIMD", h_nosimd)):
-        rc, lines, err = vlib.run_lines(ctx, exe, [], fcases + ocases)
+        rc, lines, err = runs[lab]
         outs[lab] = lines
         if rc != 0 or len(lines) != len(fcases) + len(ocases):
             n = len(lines)
@@ -670,9 +804,15 @@ def run(ctx):
                           {"build": lab, "case": allc[n] if n < len(allc) else None, "stderr_tail": err[-2000:],
                            "required": "no crash, no sanitizer report"}, found_input=n < len(allc))
             return
+    # the implementation's scalar linear_to_srgb on every distinct component value of the srgba cases (one batch per build)
+    comp = sorted({int(x) for c in ocases if c.split()[0] in ("15", "28") for x in c.split()[1:4]})
+    for lab, exe in (("SIMD", h_simd), ("NO_SIMD", h_nosimd)):
+        rc, so, se = ctx.run_exe(exe, [], stdin="\n".join("14 %d" % b for b in comp) + "\n")
+        SRGB_CACHE[lab] = dict(zip(comp, (int(v) for v in so.split())))
     hist = {}
     reported = set()
     nviol = 0
+    grid_check(ctx, fcases + ocases, outs)
     for lab, exe in (("SIMD", h_simd), ("NO_SIMD", h_nosimd)):
         q = lambda s_, e=exe: ctx.run_exe(e, [], stdin=s_)
         for i, c in enumerate(fcases + ocases):
